@@ -221,6 +221,23 @@ theorem read_back_written_column (c : ColSpec) (hv : c.v2 = false) (hpt : c.ptyp
       simp only [Option.map_some, Option.some.injEq] at ih'
       simp [ih']
 
+/-- **write → read of a whole chunk with the reader's shortcut decided by the writer's own statistics**: `read_col` steps over
+    the level blocks of a fastparquet-written chunk exactly when its recorded `null_count` is 0 (`read_guards_now`), and the
+    writer records the sum of the per-page tallies (`writerNullCount`; compared with the real footer on every chunk by the
+    `wpage.chunk` stream, and exact by C04 `null_count_exact`).  With that — no hypothesis about the shortcut left — reading the
+    pages in order and concatenating what is placed gives the column, however the rows are cut into pages. -/
+theorem read_back_written_chunk_by_statistics (c : ColSpec) (hv : c.v2 = false) (hpt : c.ptype ≤ 7) (cats : List Cell)
+    (pages : List (List Cell)) (hok : ∀ p ∈ pages, PageOk c cats.length p)
+    (hitem : ∀ item, c.dictItem = some item →
+      (item = 1 ∨ item = 2 ∨ item = 4) ∧ ∀ p ∈ pages, ∀ v ∈ nonNull p, cellNat v < 2 ^ (item * 8 - 1)) :
+    (pages.mapM fun cells =>
+        (readDataPage (!c.hasNulls) (leafOf c).maxDef c.ptype c.typeLength (encOf c) cells.length
+          (decide (writerNullCount pages = 0)) true
+          (writerPageBody c cells)).bind (placePage (leafOf c).maxDef (dictOf c cats))).map List.flatten
+      = some (pages.flatten.map (render c cats)) :=
+  read_back_written_column c hv hpt cats pages hok (decide (writerNullCount pages = 0))
+    (fun h => no_null_of_count_zero pages (by simpa using h)) hitem
+
 /-! non-vacuity: an OPTIONAL INT32 page with a null read through `read_def`; a null-free one through the shortcut -/
 example : (readDataPage false 1 PT_INT32 0 ENC_PLAIN 3 false true
       (writerPageBody { ptype := PT_INT32, hasNulls := true, v2 := false } [Cell.int 7, Cell.null, Cell.int 9])).bind
